@@ -401,6 +401,111 @@ fn cli_triples(ctx: &mut Ctx) -> Vec<Violation> {
     out
 }
 
+/// `fml compile` with a stdout that does not block: a socket pair whose writing end is switched
+/// to non-blocking and whose reader dawdles, so that the image (several hundred KB, made of
+/// strings of 9000..21000 bytes) meets a full buffer in the middle of a request.  The pinned
+/// tree gives up with an error (EAGAIN) - a refusal, which is fine; a tree that exits 0 must
+/// have delivered exactly the image.
+fn nonblocking_stdout(ctx: &mut Ctx) -> Vec<Violation> {
+    use std::io::Read;
+    use std::os::unix::net::UnixStream;
+    let mut out = vec![];
+    let bin = cli::fml_release();
+    let mut sc = cli::Scratch::new("C08", "nb");
+    for (k, len) in [9000usize, 17000, 21000].iter().enumerate() {
+        if !ctx.shard_mine(k + 1) {
+            continue;
+        }
+        let text: String = (0..*len).map(|i| (b'a' + ((i * 7 + k) % 26) as u8) as char).collect();
+        let prog: Prog = (0..40).map(|i| print(&format!("{}{}", i, text), vec![])).collect();
+        let src = render::text(&prog, render::Style::Minimal);
+        let image = match fmlrun::parse(&src).and_then(|ast| fmlrun::compile(&ast)).and_then(|p| fmlrun::serialize(&p)) {
+            Ok(b) => b,
+            Err(e) => {
+                out.push(Violation::new("harness-error", format!("cannot build the image: {}", e), json!({})));
+                continue;
+            }
+        };
+        let fsrc = sc.file("nb.fml");
+        let fjson = sc.file("nb.json");
+        std::fs::write(&fsrc, &src).unwrap();
+        match cli::run_fml(&bin, &["parse", fsrc.to_str().unwrap(), "-o", fjson.to_str().unwrap()]) {
+            Ok(o) if o.status.success() => {}
+            _ => {
+                out.push(Violation::new("harness-error", "fml parse failed", json!({})));
+                continue;
+            }
+        }
+        let (mut ours, theirs) = match UnixStream::pair() {
+            Ok(p) => p,
+            Err(e) => {
+                out.push(Violation::new("harness-error", format!("socketpair: {}", e), json!({})));
+                continue;
+            }
+        };
+        if theirs.set_nonblocking(true).is_err() {
+            continue;
+        }
+        let fd: std::os::fd::OwnedFd = theirs.into();
+        let child = std::process::Command::new(&bin)
+            .args(&["compile", fjson.to_str().unwrap()])
+            .stdin(std::process::Stdio::null())
+            .stdout(std::process::Stdio::from(fd))
+            .stderr(std::process::Stdio::null())
+            .spawn();
+        let mut child = match child {
+            Ok(c) => c,
+            Err(e) => {
+                out.push(Violation::new("harness-error", format!("cannot run fml: {}", e), json!({})));
+                continue;
+            }
+        };
+        ctx.eval();
+        ctx.label("non-blocking-stdout");
+        // a reader that starts late and reads in small pieces with pauses
+        std::thread::sleep(std::time::Duration::from_millis(400));
+        let mut got: Vec<u8> = vec![];
+        let mut buf = [0u8; 4096];
+        let _ = ours.set_read_timeout(Some(std::time::Duration::from_secs(20)));
+        loop {
+            match ours.read(&mut buf) {
+                Ok(0) => break,
+                Ok(n) => {
+                    got.extend_from_slice(&buf[..n]);
+                    if got.len() % (64 * 1024) < 4096 {
+                        std::thread::sleep(std::time::Duration::from_millis(3));
+                    }
+                    if got.len() > 8 * image.len() + (1 << 20) {
+                        let _ = child.kill(); // a writer that repeats itself without end
+                        break;
+                    }
+                }
+                Err(_) => {
+                    let _ = child.kill();
+                    break;
+                }
+            }
+        }
+        let status = child.wait();
+        let ok_exit = status.as_ref().map(|s| s.success()).unwrap_or(false);
+        if ok_exit && got != image {
+            let v = Violation::new(
+                "stdout-loses-bytes",
+                format!("`fml compile` with a non-blocking stdout and a slow reader exits 0 after delivering {} bytes; the image has {} bytes (first difference at {:?})", got.len(), image.len(), crate::props::c03::first_diff(&got, &image)),
+                json!({"nonblocking_stdout": true, "string_length": len}),
+            )
+            .with("schedule", "non-blocking-stdout");
+            if let Err(v) = ctx.settle(v) {
+                out.push(v);
+            }
+        } else {
+            ctx.label(if ok_exit { "non-blocking-stdout:complete" } else { "non-blocking-stdout:gives-up-with-an-error" });
+            ctx.nontrivial(format!("nb|{}", len).as_bytes());
+        }
+    }
+    out
+}
+
 impl Property for C08 {
     fn id(&self) -> &'static str {
         "C08"
@@ -421,7 +526,9 @@ impl Property for C08 {
         200
     }
     fn fixed_parts(&self, ctx: &mut Ctx) -> Vec<Violation> {
-        cli_triples(ctx)
+        let mut out = cli_triples(ctx);
+        out.extend(nonblocking_stdout(ctx));
+        out
     }
     fn judge_tape(&self, tape: &[u8], ctx: &mut Ctx) -> Judged {
         let mut t = Tape::new(tape);
@@ -447,6 +554,13 @@ impl Property for C08 {
             if let Some(bytes) = crate::tape::unhex(t) {
                 return self.judge_tape(&bytes, ctx);
             }
+        }
+        if case["nonblocking_stdout"].as_bool() == Some(true) {
+            // the whole leg again (three programs): the first complaint, if any
+            let c = ctx.index;
+            let _ = c;
+            let mut vs = nonblocking_stdout(ctx);
+            return if vs.is_empty() { Ok(()) } else { Err(vs.remove(0)) };
         }
         Err(Violation::new("harness-error", "unusable replay case", case.clone()))
     }
